@@ -19,22 +19,16 @@ Definition gran_okb (g e : Z) (l : list (Z * Z)) : bool :=
    (computeGranularity), 1 otherwise *)
 Definition c13_gran (c : pfcfg) : Z := d_g (pf_decide c).
 
-(* adaptive-absolute-alignment: stripe ends are aligned to absolute multiples of g, the range start is not one *)
-Definition c13_misaligned_domain (c : pfcfg) : bool :=
-  match pf_mode c with
-  | MAdaptive => (1 <? c13_gran c) && negb (pf_s c mod c13_gran c =? 0)
-  | _ => false
-  end.
+(* (the former finding adaptive-absolute-alignment -- stripe ends aligned to absolute multiples of g -- is fixed in
+   /repo: initStripeState aligns the offset from start; no known-finding domain remains for C13) *)
 
 (* 0 = equals the model's plan and honours the contract; 1 = honours it but differs from the plan;
-   2 = contract broken outside the known-finding domain; 11 = contract broken inside it;
-   3 = no recorded invocations to judge (body overran; C12's business) *)
+   2 = contract broken; 3 = no recorded invocations to judge (body overran; C12's business) *)
 Definition judge_c13 (x : pfcfg * Z * bool * list (Z * Z * Z)) : Z :=
   let '(cfg, l3, overrun, runs) := x in
   let impl := expand_runs runs in
   if overrun then 3 else
-  if negb (gran_okb (c13_gran cfg) (pf_e cfg) impl) then
-    if c13_misaligned_domain cfg then 11 else 2
+  if negb (gran_okb (c13_gran cfg) (pf_e cfg) impl) then 2
   else match pf_canon cfg l3 with
        | Some m => if zpairs_eqb m impl then 0 else 1
        | None => 1
